@@ -1579,6 +1579,7 @@ class ScenarioOutline(Scenario):
 
     def compute_status(self):
         skipped_count = 0
+        untested_count = 0
         for scenario in self._scenarios:    # -- AVOID: BUILD-SCENARIOS
             scenario_status = scenario.status
             this_status = OuterStatus.from_inner_status(scenario_status)
@@ -1586,9 +1587,16 @@ class ScenarioOutline(Scenario):
                 return this_status
             elif scenario_status == Status.skipped:
                 skipped_count += 1
+            elif scenario_status.is_untested():
+                untested_count += 1
         if skipped_count > 0 and skipped_count == len(self._scenarios):
             # -- ALL SKIPPED:
             return Status.skipped
+        if untested_count > 0 or (not self._scenarios and
+                                  self._expected_scenarios_count() > 0):
+            # -- NOT (COMPLETELY) EXECUTED: Some scenarios are untested
+            #    or scenarios are not even built yet (outline was never run).
+            return Status.untested
         # -- OTHERWISE: ALL PASSED (some scenarios may have been excluded)
         return Status.passed
 
